@@ -24,7 +24,7 @@ CONSTANTS RelMd,        \* relative agreement demanded well above the floor
           SlackNew,     \* slack over the floor, solvers that recompute the residual from x
           TolSlack,     \* rep <= tol  =>  tru <= tol + TolSlack (or the floor)
           RateBand,     \* Richardson: |observed - reference| reduction over 4 steps
-          DivergeBand   \* Richardson on spd_m: growth of the residual over 8 steps that counts as divergence
+          DivergeBand   \* Richardson on spd_m: growth of the residual from step 8 to step 40 that counts as divergence
 
 VARIABLES l, bad
 
@@ -84,11 +84,11 @@ RestartClauses(r) ==
     LET wf == Has(r, "ok") /\ Has(r, "inc") /\ Has(r, "seq")
     IN  <<  <<"restart-wellformed", wf>>,
             <<"restart-residual-non-increasing", wf => (r.ok = 1 /\ r.inc <= -9000)>> >>
-\* Richardson with the cycle as the only preconditioner: residual after 16 steps against 8 steps
+\* Richardson with the cycle as the only preconditioner: residual after 40 steps against 8 steps
 ContractClauses(r) ==
-    LET wf == Has(r, "ok") /\ (r.ok = 1 => (Has(r, "r8") /\ Has(r, "r16")))
+    LET wf == Has(r, "ok") /\ (r.ok = 1 => (Has(r, "r8") /\ Has(r, "r40")))
     IN  <<  <<"contract-wellformed", wf>>,
-            <<"richardson-does-not-diverge", wf => (r.ok = 1 /\ (r.r8 <= -11000 \/ r.r16 <= r.r8 + DivergeBand))>> >>
+            <<"richardson-does-not-diverge", wf => (r.ok = 1 /\ (r.r8 <= -11000 \/ r.r40 <= r.r8 + DivergeBand))>> >>
 
 Failed(r) == IF Has(r, "e") THEN (IF r.e = "End" THEN <<>> ELSE <<"recorder:" \o r.e>>)
              ELSE IF ~Has(r, "k") THEN <<"unknown-record">>
